@@ -473,3 +473,175 @@ fn c13_owned_equals_borrowed() {
     kani::cover!(a.is_err());
     core::mem::forget(b);
 }
+
+// ------------------------------------------------------------------ C20: TZ value resolution over a nondeterministic virtual file system
+#[cfg(feature = "alloc")]
+mod c20 {
+    use super::*;
+    use crate::error::parse::{TzFileError, TzStringError};
+    use alloc::boxed::Box;
+    use alloc::string::String;
+    use alloc::vec::Vec;
+    use core::sync::atomic::{AtomicU8, AtomicUsize, Ordering as AO};
+
+    static NCALLS: AtomicUsize = AtomicUsize::new(0);
+    static LOG: [AtomicU8; 4] = [AtomicU8::new(0), AtomicU8::new(0), AtomicU8::new(0), AtomicU8::new(0)];
+    static RESP: [AtomicU8; 4] = [AtomicU8::new(0), AtomicU8::new(0), AtomicU8::new(0), AtomicU8::new(0)];
+    static NFMT: AtomicUsize = AtomicUsize::new(0);
+
+    /// S_tzfile: the 1-byte token "T" stands for a valid TZif file, anything else is malformed (C08 is about the real parser)
+    fn stub_parse_tz_file(bytes: &[u8]) -> Result<TimeZone, TzError> {
+        if bytes.len() == 1 && bytes[0] == b'T' {
+            Ok(TimeZone::utc())
+        } else {
+            Err(TzError::TzFile(TzFileError::InvalidMagicNumber))
+        }
+    }
+    /// S_fmt_token: the k-th formatted path is the token "p<k>" (what it stands for is decided on the MIR, see props/c20.py)
+    fn stub_format(_args: core::fmt::Arguments<'_>) -> String {
+        let n = NFMT.fetch_add(1, AO::Relaxed);
+        String::from(if n == 0 {
+            "p0"
+        } else if n == 1 {
+            "p1"
+        } else if n == 2 {
+            "p2"
+        } else {
+            "p3"
+        })
+    }
+    const ETC: u8 = 1;
+    const ABS: u8 = 4;
+    fn path_id(p: &str) -> u8 {
+        if p == "p0" {
+            10
+        } else if p == "p1" {
+            11
+        } else if p == "p2" {
+            12
+        } else if p == "p3" {
+            13
+        } else if p == "/etc/localtime" {
+            ETC
+        } else if p == "/abs" {
+            ABS
+        } else {
+            99
+        }
+    }
+    fn read_fn(path: &str) -> Result<Vec<u8>, Box<dyn core::error::Error + Send + Sync + 'static>> {
+        let n = NCALLS.fetch_add(1, AO::Relaxed);
+        assert!(n < 4);
+        LOG[n].store(path_id(path), AO::Relaxed);
+        match RESP[n].load(AO::Relaxed) {
+            0 => Ok(b"T".to_vec()),
+            1 => Ok(b"g".to_vec()),
+            _ => Err("unreadable".into()),
+        }
+    }
+    fn any_fs() {
+        let mut i = 0;
+        while i < 4 {
+            let r: u8 = kani::any();
+            kani::assume(r <= 2);
+            RESP[i].store(r, AO::Relaxed);
+            i += 1;
+        }
+    }
+    #[derive(PartialEq)]
+    enum Class {
+        Ok,
+        TzFile,
+        Io,
+        TzString,
+    }
+    fn class(r: &Result<TimeZone, crate::Error>) -> Class {
+        match r {
+            Ok(_) => Class::Ok,
+            Err(crate::Error::Io(_)) => Class::Io,
+            Err(crate::Error::Tz(TzError::TzFile(_))) => Class::TzFile,
+            Err(crate::Error::Tz(TzError::TzString(_))) => Class::TzString,
+            Err(_) => {
+                assert!(false);
+                Class::Io
+            }
+        }
+    }
+    /// candidate list -> the reads that must happen, in order, up to and including the first readable file
+    fn check(s: &str, dirs: &[&str], cands: &[u8], forced: bool, fallback_ok: Option<bool>) {
+        any_fs();
+        let st = TimeZoneSettings::new(dirs, read_fn);
+        let r = st.parse_posix_tz(s);
+        let n = NCALLS.load(AO::Relaxed);
+        let mut k = 0;
+        let mut first: Option<u8> = None;
+        while k < cands.len() {
+            assert!(n > k && LOG[k].load(AO::Relaxed) == cands[k]);
+            let resp = RESP[k].load(AO::Relaxed);
+            if resp != 2 {
+                first = Some(resp);
+                break;
+            }
+            k += 1;
+        }
+        let expected_reads = if first.is_some() { k + 1 } else { cands.len() };
+        assert!(n == expected_reads);
+        let c = class(&r);
+        match first {
+            Some(0) => assert!(c == Class::Ok),
+            Some(_) => assert!(c == Class::TzFile),
+            None => {
+                if forced {
+                    assert!(c == Class::Io);
+                } else {
+                    match fallback_ok {
+                        Some(true) => assert!(c == Class::Ok),
+                        Some(false) => assert!(c == Class::TzString),
+                        None => assert!(false),
+                    }
+                }
+            }
+        }
+        kani::cover!(cands.is_empty() || first == Some(0));
+        kani::cover!(cands.is_empty() || first == Some(1));
+        kani::cover!(first.is_none());
+        core::mem::forget(r);
+    }
+
+    macro_rules! c20 {
+        ($name:ident, $s:expr, $dirs:expr, $cands:expr, $forced:expr, $fb:expr) => {
+            #[kani::proof]
+            #[kani::unwind(16)]
+            #[kani::stub(crate::parse::parse_tz_file, stub_parse_tz_file)]
+            #[kani::stub(alloc::fmt::format, stub_format)]
+            fn $name() {
+                let dirs: &[&str] = &$dirs;
+                let cands: &[u8] = &$cands;
+                check($s, dirs, cands, $forced, $fb);
+            }
+        };
+    }
+    c20!(c20_localtime, "localtime", ["/a"], [ETC], true, None);
+    c20!(c20_colon_relative_2dirs, ":X", ["/a", "/b"], [10, 11], true, None);
+    c20!(c20_relative_2dirs_not_posix, "X", ["/a", "/b"], [10, 11], false, Some(false));
+    c20!(c20_relative_3dirs_not_posix, "X", ["/a", "/b", "/c"], [10, 11, 12], false, Some(false));
+    c20!(c20_absolute, "/abs", ["/a"], [ABS], false, Some(false));
+    c20!(c20_colon_absolute, ":/abs", ["/a"], [ABS], true, None);
+    c20!(c20_trimmed_fallback, " UTC0 ", ["/a"], [10], false, Some(true));
+    c20!(c20_no_dirs_posix, "UTC0", [], [], false, Some(true));
+
+    /// the empty value is refused without touching the file system
+    #[kani::proof]
+    #[kani::unwind(6)]
+    #[kani::stub(crate::parse::parse_tz_file, stub_parse_tz_file)]
+    #[kani::stub(alloc::fmt::format, stub_format)]
+    fn c20_empty() {
+        any_fs();
+        let dirs = ["/a"];
+        let st = TimeZoneSettings::new(&dirs, read_fn);
+        let r = st.parse_posix_tz("");
+        assert!(NCALLS.load(AO::Relaxed) == 0);
+        assert!(matches!(&r, Err(crate::Error::Tz(TzError::TzString(TzStringError::Empty)))));
+        core::mem::forget(r);
+    }
+}
